@@ -1,9 +1,21 @@
 //! Engine `codec` (C13, C14, C15): the real `actix_codec::{Framed, LinesCodec, BytesCodec}` driven
 //! through the line protocol.
-use std::io::Write;
+use std::{
+    cell::RefCell,
+    collections::VecDeque,
+    io::{self, Write},
+    pin::Pin,
+    rc::Rc,
+    sync::{
+        atomic::{AtomicUsize, Ordering},
+        Arc,
+    },
+    task::{Context, Poll, Wake, Waker},
+};
 
-use actix_codec::{Decoder, Encoder, LinesCodec};
-use bytes::BytesMut;
+use actix_codec::{AsyncRead, AsyncWrite, BytesCodec, Decoder, Encoder, Framed, LinesCodec, ReadBuf};
+use bytes::{Buf, BufMut, Bytes, BytesMut};
+use futures_core::Stream;
 use vh::*;
 
 // ------------------------------------------------------------------------------------------------
@@ -267,10 +279,708 @@ fn step_c15(ws: &[&str], rep: &mut Report) -> Option<String> {
 }
 
 // ------------------------------------------------------------------------------------------------
+// Scripted transport, counting codec adapter, length-prefixed test codec
+// ------------------------------------------------------------------------------------------------
+
+/// largest chunk a scripted read may carry (= the room `Framed` guarantees at every read)
+const MAX_CHUNK: usize = 1024;
+const IO_MSG: &str = "scripted-io";
+
+#[derive(Clone, Debug, PartialEq)]
+enum Rd {
+    Data(Vec<u8>),
+    Pending,
+    Err(io::ErrorKind),
+    Eof,
+}
+
+#[derive(Default)]
+struct IoState {
+    // read side
+    rscript: VecDeque<Rd>,
+    n_read: usize,
+    eof_reads: usize,
+    delivered: Vec<u8>,
+    eof_answered: bool,
+    zero_room_reads: usize,
+    min_room: Option<usize>,
+    read_events: Vec<String>,
+    wakes_requested: usize,
+}
+
+#[derive(Clone)]
+struct ScriptedIo(Rc<RefCell<IoState>>);
+
+impl AsyncRead for ScriptedIo {
+    fn poll_read(self: Pin<&mut Self>, cx: &mut Context<'_>, buf: &mut ReadBuf<'_>) -> Poll<io::Result<()>> {
+        let mut st = self.0.borrow_mut();
+        st.n_read += 1;
+        let room = buf.remaining();
+        st.min_room = Some(st.min_room.map_or(room, |m| m.min(room)));
+        if room == 0 {
+            st.zero_room_reads += 1;
+        }
+        match st.rscript.pop_front() {
+            None => {
+                st.eof_answered = true;
+                st.eof_reads += 1;
+                if st.eof_reads > 64 {
+                    panic!("watchdog: poll_read called {} times at end of file", st.eof_reads);
+                }
+                Poll::Ready(Ok(()))
+            }
+            Some(Rd::Eof) => {
+                st.eof_answered = true;
+                Poll::Ready(Ok(()))
+            }
+            Some(Rd::Data(bs)) => {
+                let k = bs.len().min(room);
+                buf.put_slice(&bs[..k]);
+                st.delivered.extend_from_slice(&bs[..k]);
+                if k < bs.len() {
+                    st.rscript.push_front(Rd::Data(bs[k..].to_vec()));
+                }
+                if k == 0 {
+                    st.eof_answered = true;
+                }
+                Poll::Ready(Ok(()))
+            }
+            Some(Rd::Pending) => {
+                st.read_events.push("pending".into());
+                st.wakes_requested += 1;
+                cx.waker().wake_by_ref();
+                Poll::Pending
+            }
+            Some(Rd::Err(k)) => {
+                st.read_events.push(format!("ioerr:{}", kind_str(k)));
+                Poll::Ready(Err(io::Error::new(k, IO_MSG)))
+            }
+        }
+    }
+}
+
+impl AsyncWrite for ScriptedIo {
+    fn poll_write(self: Pin<&mut Self>, _cx: &mut Context<'_>, buf: &[u8]) -> Poll<io::Result<usize>> {
+        Poll::Ready(Ok(buf.len()))
+    }
+    fn poll_flush(self: Pin<&mut Self>, _cx: &mut Context<'_>) -> Poll<io::Result<()>> {
+        Poll::Ready(Ok(()))
+    }
+    fn poll_shutdown(self: Pin<&mut Self>, _cx: &mut Context<'_>) -> Poll<io::Result<()>> {
+        Poll::Ready(Ok(()))
+    }
+}
+
+const KINDS: [(&str, io::ErrorKind); 12] = [
+    ("ConnectionReset", io::ErrorKind::ConnectionReset),
+    ("BrokenPipe", io::ErrorKind::BrokenPipe),
+    ("TimedOut", io::ErrorKind::TimedOut),
+    ("Other", io::ErrorKind::Other),
+    ("UnexpectedEof", io::ErrorKind::UnexpectedEof),
+    ("InvalidData", io::ErrorKind::InvalidData),
+    ("InvalidInput", io::ErrorKind::InvalidInput),
+    ("WriteZero", io::ErrorKind::WriteZero),
+    ("WouldBlock", io::ErrorKind::WouldBlock),
+    ("Interrupted", io::ErrorKind::Interrupted),
+    ("ConnectionAborted", io::ErrorKind::ConnectionAborted),
+    ("NotConnected", io::ErrorKind::NotConnected),
+];
+
+fn kind_str(k: io::ErrorKind) -> &'static str {
+    KINDS.iter().find(|(_, x)| *x == k).map(|(n, _)| *n).unwrap_or("?")
+}
+fn parse_kind(s: &str) -> Option<io::ErrorKind> {
+    KINDS.iter().find(|(n, _)| *n == s).map(|(_, k)| *k)
+}
+
+/// short byte strings in hex, long ones as `#<len>.<hash>` (same function in Driver/Codec.lean)
+fn show_bytes(bs: &[u8]) -> String {
+    if bs.len() <= 24 {
+        hex(bs)
+    } else {
+        let h = bs.iter().fold(7u64, |h, &b| (h * 31 + b as u64) % 4294967296);
+        format!("#{}.{}", bs.len(), h)
+    }
+}
+
+/// The length-prefixed test codec (mirrored by `lenCodec` in Model/Framed.lean): one length byte
+/// `n`, then `n` payload bytes; the length byte 255 is a protocol error (the byte is consumed);
+/// `decode_eof` is tokio-util's default.
+#[derive(Default)]
+struct LenCodec;
+
+impl Decoder for LenCodec {
+    type Item = Vec<u8>;
+    type Error = io::Error;
+    fn decode(&mut self, src: &mut BytesMut) -> Result<Option<Vec<u8>>, io::Error> {
+        if src.is_empty() {
+            return Ok(None);
+        }
+        let n = src[0] as usize;
+        if n == 255 {
+            src.advance(1);
+            return Err(io::Error::new(io::ErrorKind::InvalidInput, "bad length byte"));
+        }
+        if src.len() - 1 < n {
+            return Ok(None);
+        }
+        src.advance(1);
+        Ok(Some(src.split_to(n).to_vec()))
+    }
+}
+
+impl Encoder<Vec<u8>> for LenCodec {
+    type Error = io::Error;
+    fn encode(&mut self, item: Vec<u8>, dst: &mut BytesMut) -> Result<(), io::Error> {
+        if item.len() > 254 {
+            return Err(io::Error::new(io::ErrorKind::InvalidInput, "item too long"));
+        }
+        dst.put_u8(item.len() as u8);
+        dst.extend_from_slice(&item);
+        Ok(())
+    }
+}
+
+#[derive(Clone, Copy, PartialEq, Debug)]
+enum Sel {
+    Lines,
+    Bytes,
+    Len,
+}
+
+impl Sel {
+    fn name(self) -> &'static str {
+        match self {
+            Sel::Lines => "lines",
+            Sel::Bytes => "bytes",
+            Sel::Len => "len",
+        }
+    }
+}
+
+#[derive(Default)]
+struct Counters {
+    n_decode: usize,
+    n_decode_eof: usize,
+    n_encode: usize,
+}
+
+/// delegates to the real codec selected by `sel` (items as raw bytes) and counts the calls
+struct AnyCodec {
+    sel: Sel,
+    lines: LinesCodec,
+    bytes: BytesCodec,
+    len: LenCodec,
+    cnt: Rc<RefCell<Counters>>,
+}
+
+impl AnyCodec {
+    fn new(sel: Sel) -> Self {
+        AnyCodec { sel, lines: LinesCodec::default(), bytes: BytesCodec, len: LenCodec, cnt: Default::default() }
+    }
+}
+
+impl Decoder for AnyCodec {
+    type Item = Vec<u8>;
+    type Error = io::Error;
+    fn decode(&mut self, src: &mut BytesMut) -> Result<Option<Vec<u8>>, io::Error> {
+        self.cnt.borrow_mut().n_decode += 1;
+        match self.sel {
+            Sel::Lines => self.lines.decode(src).map(|o| o.map(String::into_bytes)),
+            Sel::Bytes => self.bytes.decode(src).map(|o| o.map(|b| b.to_vec())),
+            Sel::Len => self.len.decode(src),
+        }
+    }
+    fn decode_eof(&mut self, src: &mut BytesMut) -> Result<Option<Vec<u8>>, io::Error> {
+        self.cnt.borrow_mut().n_decode_eof += 1;
+        match self.sel {
+            Sel::Lines => self.lines.decode_eof(src).map(|o| o.map(String::into_bytes)),
+            Sel::Bytes => self.bytes.decode_eof(src).map(|o| o.map(|b| b.to_vec())),
+            Sel::Len => self.len.decode_eof(src),
+        }
+    }
+}
+
+impl Encoder<Vec<u8>> for AnyCodec {
+    type Error = io::Error;
+    fn encode(&mut self, item: Vec<u8>, dst: &mut BytesMut) -> Result<(), io::Error> {
+        self.cnt.borrow_mut().n_encode += 1;
+        match self.sel {
+            Sel::Lines => match String::from_utf8(item) {
+                Ok(s) => self.lines.encode(s, dst),
+                Err(_) => Err(io::Error::new(io::ErrorKind::InvalidData, "not a str")),
+            },
+            Sel::Bytes => self.bytes.encode(Bytes::from(item), dst),
+            Sel::Len => self.len.encode(item, dst),
+        }
+    }
+}
+
+struct CountWake(AtomicUsize);
+impl Wake for CountWake {
+    fn wake(self: Arc<Self>) {
+        self.0.fetch_add(1, Ordering::SeqCst);
+    }
+    fn wake_by_ref(self: &Arc<Self>) {
+        self.0.fetch_add(1, Ordering::SeqCst);
+    }
+}
+
+// ------------------------------------------------------------------------------------------------
+// C13: the read side of Framed
+// ------------------------------------------------------------------------------------------------
+
+#[derive(Clone, PartialEq, Debug)]
+enum Out {
+    Item(Vec<u8>),
+    DecErr(io::ErrorKind),
+    IoErr(io::ErrorKind),
+    Pending,
+    None,
+}
+
+impl Out {
+    fn show(&self) -> String {
+        match self {
+            Out::Item(f) => format!("item:{}", show_bytes(f)),
+            Out::DecErr(k) => format!("derr:{}", kind_str(*k)),
+            Out::IoErr(k) => format!("ioerr:{}", kind_str(*k)),
+            Out::Pending => "pending".into(),
+            Out::None => "none".into(),
+        }
+    }
+    fn is_frame(&self) -> bool {
+        matches!(self, Out::Item(_) | Out::DecErr(_) | Out::None)
+    }
+}
+
+struct Session {
+    sel: Sel,
+    io: ScriptedIo,
+    cnt: Rc<RefCell<Counters>>,
+    framed: Option<Framed<ScriptedIo, AnyCodec>>,
+    wake: Arc<CountWake>,
+    outs: Vec<Out>,
+    dead: bool,
+}
+
+impl Session {
+    fn new(sel: Sel) -> Self {
+        let io = ScriptedIo(Default::default());
+        let codec = AnyCodec::new(sel);
+        let cnt = codec.cnt.clone();
+        Session {
+            sel,
+            io: io.clone(),
+            cnt,
+            framed: Some(Framed::new(io, codec)),
+            wake: Arc::new(CountWake(AtomicUsize::new(0))),
+            outs: vec![],
+            dead: false,
+        }
+    }
+
+    fn poll_next(&mut self) -> Result<Out, String> {
+        let waker = Waker::from(self.wake.clone());
+        let mut cx = Context::from_waker(&waker);
+        let framed = self.framed.as_mut().unwrap();
+        let r = catch(|| Pin::new(&mut *framed).poll_next(&mut cx));
+        let out = match r {
+            Err(e) => {
+                self.dead = true;
+                return Err(e);
+            }
+            Ok(Poll::Pending) => Out::Pending,
+            Ok(Poll::Ready(None)) => Out::None,
+            Ok(Poll::Ready(Some(Ok(f)))) => Out::Item(f),
+            Ok(Poll::Ready(Some(Err(e)))) => {
+                let scripted = e.get_ref().map(|i| i.to_string() == IO_MSG).unwrap_or(false);
+                if scripted {
+                    Out::IoErr(e.kind())
+                } else {
+                    Out::DecErr(e.kind())
+                }
+            }
+        };
+        self.outs.push(out.clone());
+        Ok(out)
+    }
+
+    fn read_buf(&mut self) -> Vec<u8> {
+        let parts = self.framed.take().unwrap().into_parts();
+        let v = parts.read_buf.to_vec();
+        self.framed = Some(Framed::from_parts(parts));
+        v
+    }
+
+    fn rd_counters(&mut self) -> String {
+        let buf = self.read_buf();
+        let c = self.cnt.borrow();
+        format!("rd={} dec={} eofc={} buf={}", self.io.0.borrow().n_read, c.n_decode, c.n_decode_eof, show_bytes(&buf))
+    }
+}
+
+/// what a consumer of the whole stream sees from a fresh instance of the real codec: every result of
+/// `decode` until `None`, then (at end of file) `need` results of `decode_eof`
+fn whole_stream(sel: Sel, stream: &[u8], at_eof: bool, need: usize) -> Vec<Out> {
+    let mut codec = AnyCodec::new(sel);
+    let mut src = BytesMut::from(stream);
+    let mut out = vec![];
+    let conv = |r: io::Result<Option<Vec<u8>>>| match r {
+        Ok(None) => Out::None,
+        Ok(Some(f)) => Out::Item(f),
+        Err(e) => Out::DecErr(e.kind()),
+    };
+    loop {
+        match conv(codec.decode(&mut src)) {
+            Out::None => break,
+            o => out.push(o),
+        }
+        if out.len() > stream.len() + 2 {
+            break;
+        }
+    }
+    if at_eof {
+        while out.len() < need {
+            out.push(conv(codec.decode_eof(&mut src)));
+        }
+    }
+    out
+}
+
+/// T3 for C13, evaluated on everything the real `Framed` has answered so far in this case
+fn oracle_c13(s: &Session, rep: &mut Report) {
+    let io = s.io.0.borrow();
+    let frames: Vec<Out> = s.outs.iter().filter(|o| o.is_frame()).cloned().collect();
+    let events: Vec<String> = s.outs.iter().filter(|o| !o.is_frame()).map(|o| o.show()).collect();
+    if events != io.read_events {
+        rep.t3("C13", &format!("transport answered {:?} but the stream surfaced {:?}", io.read_events, events));
+    }
+    if io.zero_room_reads > 0 {
+        rep.t3("C13", "poll_read was called with a buffer that has no room (spurious EOF)");
+    }
+    if s.dead {
+        rep.t3("C13", "poll_next panicked or did not return (watchdog)");
+        return;
+    }
+    let show = |v: &[Out]| v.iter().map(|o| o.show()).collect::<Vec<_>>().join(",");
+    match s.sel {
+        Sel::Bytes => {
+            let mut cat = vec![];
+            for o in &frames {
+                match o {
+                    Out::Item(f) => {
+                        if f.is_empty() {
+                            rep.t3("C13", "BytesCodec yielded an empty item");
+                        }
+                        if cat.len() < io.delivered.len() || !f.is_empty() {
+                            cat.extend_from_slice(f);
+                        }
+                    }
+                    Out::DecErr(k) => rep.t3("C13", &format!("BytesCodec decode error {k:?}")),
+                    _ => {}
+                }
+            }
+            let seen_none = frames.iter().any(|o| *o == Out::None);
+            if !io.delivered.starts_with(&cat) || (seen_none && cat.len() != io.delivered.len()) {
+                rep.t3("C13", &format!("BytesCodec items concatenate to {} bytes {} but the stream is {} bytes {} (none seen: {seen_none})", cat.len(), show_bytes(&cat), io.delivered.len(), show_bytes(&io.delivered)));
+            }
+            if let Some(i) = frames.iter().position(|o| *o == Out::None) {
+                if frames[i..].iter().any(|o| *o != Out::None) {
+                    rep.t3("C13", "an item after None");
+                }
+            }
+        }
+        _ => {
+            let want = whole_stream(s.sel, &io.delivered, io.eof_answered, frames.len());
+            let n = frames.len().min(want.len());
+            if frames[..n] != want[..n] || (io.eof_answered && frames.len() > want.len()) {
+                rep.t3("C13", &format!("{} codec: Framed yielded [{}] but decoding the whole stream {} with a fresh codec yields [{}]", s.sel.name(), show(&frames), show_bytes(&io.delivered), show(&want)));
+            } else if !io.eof_answered && frames.len() > want.len() {
+                rep.t3("C13", &format!("{} codec: Framed yielded [{}], more than the [{}] in the {} bytes delivered so far", s.sel.name(), show(&frames), show(&want), io.delivered.len()));
+            }
+        }
+    }
+}
+
+fn parse_rd(w: &str) -> Option<Rd> {
+    if w == "p" {
+        Some(Rd::Pending)
+    } else if w == "z" {
+        Some(Rd::Eof)
+    } else if let Some(h) = w.strip_prefix("d:") {
+        unhex(h).filter(|v| v.len() <= MAX_CHUNK).map(Rd::Data)
+    } else if let Some(k) = w.strip_prefix("e:") {
+        parse_kind(k).map(Rd::Err)
+    } else {
+        None
+    }
+}
+
+fn show_rd(e: &Rd) -> String {
+    match e {
+        Rd::Data(b) => format!("d:{}", hex(b)),
+        Rd::Pending => "p".into(),
+        Rd::Err(k) => format!("e:{}", kind_str(*k)),
+        Rd::Eof => "z".into(),
+    }
+}
+
+fn step_c13(ws: &[&str], s: &mut Session, rep: &mut Report) -> Option<String> {
+    Some(match ws {
+        ["script", evs @ ..] => match evs.iter().map(|w| parse_rd(w)).collect::<Option<Vec<Rd>>>() {
+            Some(es) => {
+                let mut io = s.io.0.borrow_mut();
+                io.rscript.extend(es);
+                format!("ok {}", io.rscript.len())
+            }
+            None => "bad-op".into(),
+        },
+        ["poll"] => {
+            if s.dead {
+                return Some("panic".into());
+            }
+            let r = s.poll_next();
+            let o = match r {
+                Ok(o) => format!("{} {}", o.show(), s.rd_counters()),
+                Err(_) => "panic".into(),
+            };
+            if s.io.0.borrow().delivered.len() <= 256 {
+                oracle_c13(s, rep);
+            }
+            o
+        }
+        ["drain", n] => match n.parse::<usize>() {
+            Ok(n) if n <= 10000 => {
+                if s.dead {
+                    return Some("panic".into());
+                }
+                let mut shown = vec![];
+                for _ in 0..n {
+                    match s.poll_next() {
+                        Ok(o) => shown.push(o.show()),
+                        Err(_) => break,
+                    }
+                }
+                let o = if s.dead { "panic".to_string() } else { format!("[{}] {}", shown.join(","), s.rd_counters()) };
+                oracle_c13(s, rep);
+                o
+            }
+            _ => "bad-op".into(),
+        },
+        _ => return None,
+    })
+}
+
+const C13_ALPHABETS: [(Sel, &[u8]); 3] =
+    [(Sel::Lines, &[b'a', b'\r', b'\n', 0xFF]), (Sel::Len, &[0, 1, 2, 0xFF]), (Sel::Bytes, &[b'a', b'\n'])];
+
+/// all compositions of `s` into non-empty chunks
+fn compositions(s: &[u8]) -> Vec<Vec<Vec<u8>>> {
+    if s.is_empty() {
+        return vec![vec![]];
+    }
+    let n = s.len();
+    (0..(1u32 << (n - 1)))
+        .map(|mask| {
+            let mut chunks = vec![];
+            let mut cur = vec![s[0]];
+            for i in 1..n {
+                if mask & (1 << (i - 1)) != 0 {
+                    chunks.push(std::mem::take(&mut cur));
+                }
+                cur.push(s[i]);
+            }
+            chunks.push(cur);
+            chunks
+        })
+        .collect()
+}
+
+/// `chunks` with extra events inserted: `ins` = (position, event), position `i` = before chunk `i`
+fn script_with(chunks: &[Vec<u8>], ins: &[(usize, Rd)]) -> Vec<Rd> {
+    let mut out = vec![];
+    for i in 0..=chunks.len() {
+        for (p, e) in ins {
+            if *p == i {
+                out.push(e.clone());
+            }
+        }
+        if i < chunks.len() {
+            out.push(Rd::Data(chunks[i].clone()));
+        }
+    }
+    out
+}
+
+fn emit_c13(w: &mut dyn Write, id: &mut usize, sel: Sel, tag: &str, script: &[Rd], polls: usize) {
+    *id += 1;
+    writeln!(w, "case c13-{}-{tag}-{} codec={}", sel.name(), *id, sel.name()).unwrap();
+    let evs: Vec<String> = script.iter().map(show_rd).collect();
+    writeln!(w, "script {}", evs.join(" ")).unwrap();
+    writeln!(w, "drain {polls}").unwrap();
+}
+
+fn long_stream(rng: &mut Rng, sel: Sel) -> Vec<u8> {
+    let target = *rng.pick(&[1500usize, 6000, 9000, 12000, 20000]);
+    let mut v = vec![];
+    while v.len() < target {
+        match sel {
+            Sel::Lines => {
+                let n = match rng.below(10) {
+                    0 => rng.range(1000, 1100),
+                    1 => rng.range(8100, 8300),
+                    2 => 0,
+                    _ => rng.range(1, 120),
+                };
+                for _ in 0..n {
+                    v.push(b'a' + rng.below(26) as u8);
+                }
+                match rng.below(12) {
+                    0 => v.push(0xFF),
+                    1 => v.extend_from_slice("é".as_bytes()),
+                    _ => {}
+                }
+                if rng.chance(1, 4) {
+                    v.push(b'\r');
+                }
+                v.push(b'\n');
+            }
+            Sel::Len => {
+                if rng.chance(1, 40) {
+                    v.push(0xFF);
+                } else {
+                    let n = *rng.pick(&[0usize, 1, 2, 10, 100, 254, 254]);
+                    v.push(n as u8);
+                    for _ in 0..n {
+                        v.push(rng.below(256) as u8);
+                    }
+                }
+            }
+            Sel::Bytes => {
+                for _ in 0..rng.range(1, 300) {
+                    v.push(rng.below(256) as u8);
+                }
+            }
+        }
+    }
+    if rng.chance(1, 2) {
+        // unterminated tail / truncated frame
+        let cut = rng.below(40.min(v.len()));
+        v.truncate(v.len() - cut);
+    }
+    v
+}
+
+fn gen_c13(a: &Args, w: &mut dyn Write) {
+    let thorough = a.tier == "thorough";
+    let mut id = 0usize;
+    let kinds = [io::ErrorKind::ConnectionReset, io::ErrorKind::BrokenPipe, io::ErrorKind::WouldBlock, io::ErrorKind::Interrupted];
+    for (sel, alphabet) in C13_ALPHABETS {
+        let extra = if alphabet.len() == 2 { 2 } else { 0 };
+        let (la, lb) = if thorough { (6 + extra, 5 + extra) } else { (5 + extra, 4 + extra) };
+        let mut k = 0usize;
+        all_strings(alphabet, la, &mut |s| {
+            for chunks in compositions(s) {
+                let polls = chunks.len() + s.len() + 3;
+                // (A) every composition, no transport events
+                emit_c13(w, &mut id, sel, "chunks", &script_with(&chunks, &[]), polls);
+                if s.len() > lb {
+                    continue;
+                }
+                let p = chunks.len() + 1;
+                // (B) Pending at one or two places
+                for i in 0..p {
+                    emit_c13(w, &mut id, sel, "pend1", &script_with(&chunks, &[(i, Rd::Pending)]), polls + 1);
+                    for j in i..p {
+                        emit_c13(w, &mut id, sel, "pend2", &script_with(&chunks, &[(i, Rd::Pending), (j, Rd::Pending)]), polls + 2);
+                    }
+                }
+                // (C) one I/O error at every place, alone / after a Pending / before a Pending
+                for i in 0..p {
+                    k += 1;
+                    let e = Rd::Err(kinds[k % kinds.len()]);
+                    emit_c13(w, &mut id, sel, "err", &script_with(&chunks, &[(i, e.clone())]), polls + 1);
+                    emit_c13(w, &mut id, sel, "perr", &script_with(&chunks, &[(i, Rd::Pending), (i, e.clone())]), polls + 2);
+                    emit_c13(w, &mut id, sel, "errp", &script_with(&chunks, &[(i, e.clone()), (i, Rd::Pending)]), polls + 2);
+                }
+            }
+        });
+    }
+    // (D) long random streams crossing the 1 KiB / 8 KiB marks, random chunk sizes up to 1 KiB
+    let mut rng = Rng::new(a.seed ^ 0x13);
+    let cases = if thorough { 900 } else { 210 };
+    for c in 0..cases {
+        let sel = [Sel::Lines, Sel::Len, Sel::Bytes][c % 3];
+        let stream = long_stream(&mut rng, sel);
+        let mut script = vec![];
+        let mut i = 0;
+        let style = rng.below(4);
+        while i < stream.len() {
+            let n = match style {
+                0 => rng.range(1, 16),
+                1 => rng.range(900, 1024),
+                2 => 1024,
+                _ => *rng.pick(&[1usize, 7, 64, 500, 1023, 1024]),
+            }
+            .min(stream.len() - i);
+            script.push(Rd::Data(stream[i..i + n].to_vec()));
+            i += n;
+            if rng.chance(1, 12) {
+                script.push(Rd::Pending);
+            }
+        }
+        if rng.chance(1, 2) {
+            let at = rng.below(script.len() + 1);
+            script.insert(at, Rd::Err(*rng.pick(&kinds)));
+        }
+        match rng.below(6) {
+            0 => script.push(Rd::Eof),
+            1 => {
+                // an explicit EOF in the middle: nothing after it may be read
+                let at = rng.below(script.len() + 1);
+                script.insert(at, if rng.chance(1, 2) { Rd::Eof } else { Rd::Data(vec![]) });
+            }
+            _ => {}
+        }
+        id += 1;
+        writeln!(w, "case c13-{}-long-{id} codec={}", sel.name(), sel.name()).unwrap();
+        // the script in several `script` lines, polls in between (the script may run dry = EOF only at the end)
+        let evs: Vec<String> = script.iter().map(show_rd).collect();
+        for part in evs.chunks(12) {
+            writeln!(w, "script {}", part.join(" ")).unwrap();
+        }
+        let frames = whole_stream(sel, &stream, true, 0).len();
+        let polls = (script.len() + frames + 4).min(10000);
+        if rng.chance(1, 3) {
+            for _ in 0..rng.range(1, 6) {
+                writeln!(w, "poll").unwrap();
+            }
+        }
+        writeln!(w, "drain {polls}").unwrap();
+        writeln!(w, "poll").unwrap();
+    }
+    // (E) malformed ops: rejected identically by both sides
+    writeln!(w, "case c13-malformed codec=lines").unwrap();
+    writeln!(w, "script d:6").unwrap();
+    writeln!(w, "script x:61").unwrap();
+    writeln!(w, "script e:NoSuchKind").unwrap();
+    writeln!(w, "script d:{}", "61".repeat(MAX_CHUNK + 1)).unwrap();
+    writeln!(w, "script d:{}", "61".repeat(MAX_CHUNK)).unwrap();
+    writeln!(w, "drain x").unwrap();
+    writeln!(w, "drain 100001").unwrap();
+    writeln!(w, "poll 3").unwrap();
+    writeln!(w, "poll").unwrap();
+    writeln!(w, "case c13-badcodec codec=nope").unwrap();
+    writeln!(w, "poll").unwrap();
+}
+
+// ------------------------------------------------------------------------------------------------
 
 fn gen(a: &Args) {
     let mut w = out_writer(&a.output);
     match a.prop.as_str() {
+        "C13" => gen_c13(a, &mut *w),
         "C15" => gen_c15(a, &mut *w),
         p => {
             eprintln!("codec: unknown property {p}");
@@ -280,18 +990,48 @@ fn gen(a: &Args) {
     w.flush().unwrap();
 }
 
+fn parse_case(ws: &[&str]) -> Option<Sel> {
+    let mut sel = Sel::Lines;
+    for w in ws.iter().skip(2) {
+        match *w {
+            "codec=lines" => sel = Sel::Lines,
+            "codec=bytes" => sel = Sel::Bytes,
+            "codec=len" => sel = Sel::Len,
+            x if x.starts_with("codec=") => return None,
+            _ => {}
+        }
+    }
+    Some(sel)
+}
+
 fn run(a: &Args) {
     silence_panics();
     let mut rep = Report::new(&a.output);
+    let mut sess = Session::new(Sel::Lines);
     for line in in_lines(&a.input) {
         let ws: Vec<&str> = line.split_whitespace().collect();
         let real: String = match ws.as_slice() {
-            ["case", ..] => "ok".into(),
-            _ => match catch(|| step_c15(&ws, &mut rep)) {
-                Ok(Some(s)) => s,
-                Ok(None) => "bad-op".into(),
-                Err(_) => "panic".into(),
+            ["case", ..] => match parse_case(&ws) {
+                Some(sel) => {
+                    sess = Session::new(sel);
+                    "ok".into()
+                }
+                None => {
+                    sess = Session::new(Sel::Lines);
+                    "bad-op".into()
+                }
             },
+            _ => {
+                let r = catch(|| match step_c13(&ws, &mut sess, &mut rep) {
+                    Some(o) => Some(o),
+                    None => step_c15(&ws, &mut rep),
+                });
+                match r {
+                    Ok(Some(o)) => o,
+                    Ok(None) => "bad-op".into(),
+                    Err(_) => "panic".into(),
+                }
+            }
         };
         rep.obs(&line, &real);
     }
